@@ -22,13 +22,24 @@ verus! {
 //@include spec/evalctx_types.rs
 //@include spec/strmap.rs
 //@include spec/evalctx.rs
+//@include spec/size.rs
+//@include spec/mark.rs
 //@fmtfns
 
 //@type src/evaluation/mark_duplicates.rs NodeWithDomains
+// TRUSTED stand-ins for the derived PartialEq / Eq and the hand-written Ord / PartialOrd of NodeWithDomains (order by height):
+// they only influence the ORDER in which the heap hands out nodes, which no contract of this unit depends on.
+#[verifier::external] impl PartialEq for NodeWithDomains<'_> { fn eq(&self, o: &Self) -> bool { self.subtree.height == o.subtree.height } }
+#[verifier::external] impl Eq for NodeWithDomains<'_> {}
+#[verifier::external] impl Ord for NodeWithDomains<'_> { fn cmp(&self, other: &Self) -> Ordering { self.subtree.height.cmp(&other.subtree.height) } }
+#[verifier::external] impl PartialOrd for NodeWithDomains<'_> { fn partial_cmp(&self, other: &Self) -> Option<Ordering> { Some(self.cmp(other)) } }
 //@trusted get_canonical_and_renaming
 //@verify node_with_domains_new
 //@verify node_with_domains_new_empty
 //@verify mark_duplicates_canonized_multiple
+//@verify mark_duplicates_canonized_single
+//@verify from_multiple_trees
+//@verify from_single_tree
 
 fn main() {}
 } // verus!
